@@ -98,8 +98,9 @@ def _filters_small(rows, cols, na=3):
 
 def _block_filters(tier):
     med = [3, 5] if tier == "quick" else [3, 5, 7, 9]
-    bil = [(0.7, 1.0), (1.0, 2.0), (1.5, 2.0), (6.0, 2.0)] if tier == "quick" else \
-        [(0.7, 1.0), (1.0, 2.0), (1.5, 2.0), (2.2, 0.5), (2.7, 4.0), (3.0, 1.0), (6.0, 2.0)]
+    # 18.0: a window (55) wider than the 50-pixel processing blocks of the filter
+    bil = [(0.7, 1.0), (1.0, 2.0), (1.5, 2.0), (6.0, 2.0), (18.0, 3.0)] if tier == "quick" else \
+        [(0.7, 1.0), (1.0, 2.0), (1.5, 2.0), (2.2, 0.5), (2.7, 4.0), (3.0, 1.0), (6.0, 2.0), (18.0, 3.0)]
     return [("median", {"filter_size": f}) for f in med] + \
            [("bilateral", {"sigma_space": s, "sigma_color": c}) for s, c in bil]
 
